@@ -32,7 +32,8 @@ func (rw *readWriter) Read(p []byte) (n int, err error) {
 	rw.m.Lock()
 	defer rw.m.Unlock()
 
-	if !rw.closed.Load() && rw.buf.Len() == 0 {
+	// A wake-up does not mean there is data: an empty Write signals too.
+	for !rw.closed.Load() && rw.buf.Len() == 0 {
 		vhook.At("rw.read.wait")
 		rw.cv.Wait()
 	}
